@@ -451,7 +451,7 @@ func trunc(s string, n int) string {
 }
 
 var c19Main = newPart("C19", "hostile-histories",
-	"rapid: histories of 2..16 requests to the REAL server binary: methods {GET,POST,PUT,DELETE,HEAD,PATCH,OPTIONS} x paths (ten endpoints, /, /docs..., unknown, 4 KiB long, percent-encoded, doubled/trailing slashes, case variants) x bodies from a JSON mutation grammar over each endpoint's well-formed body (empty, truncated at any byte, unterminated string, arbitrary bytes, a dropped field, every field x every JSON type incl. null/bool/array/object/number where a string is expected, numbers at +-2^53, +-2^63, 2^64, 1e400, -1, 1.5, skew/period/counter/timestamp extremes, blank and 1 MiB strings, contradictory suites incl. blank raw_suite, nested arrays, bodies at and over the 1 MiB limit), every 3rd..5th request a well-formed probe whose answer is checked against the reference; invariant over the history: every request gets a complete parseable HTTP response within 5 s (one lone retry with 15 s), syntactically broken bodies on the POST endpoints, wrong methods (other than HEAD / OPTIONS) and plain unknown paths get a failure status (>= 400); wrongly typed / out-of-range / blank / missing-required fields get a failure status or, if the service handles them, the endpoint's actual result (never an error description under a success status), probes 200 with the RFC value, the process is alive and reports no unrecovered panic; non-trivial = history with at least one non-well-formed request",
+	"rapid: histories of 2..16 requests to the REAL server binary: methods {GET,POST,PUT,DELETE,HEAD,PATCH,OPTIONS} x paths (ten endpoints, /, /docs..., unknown, 4 KiB long, percent-encoded, doubled/trailing slashes, case variants) x bodies from a JSON mutation grammar over each endpoint's well-formed body (empty, truncated at any byte, unterminated string, arbitrary bytes, a dropped field, every field x every JSON type incl. null/bool/array/object/number where a string is expected, numbers at +-2^53, +-2^63, 2^64, 1e400, -1, 1.5, numbers drawn from the whole JSON number grammar (zero and non-zero mantissas of up to 1000 digits, fractions, exponents up to +-2^63 and beyond), skew/period/counter/timestamp extremes, blank and 1 MiB strings, contradictory suites incl. blank raw_suite, nested arrays, bodies at and over the 1 MiB limit), every 3rd..5th request a well-formed probe whose answer is checked against the reference; invariant over the history: every request gets a complete parseable HTTP response within 5 s (one lone retry with 15 s), syntactically broken bodies on the POST endpoints, wrong methods (other than HEAD / OPTIONS) and plain unknown paths get a failure status (>= 400); wrongly typed / out-of-range / blank / missing-required fields get a failure status or, if the service handles them, the endpoint's actual result (never an error description under a success status), probes 200 with the RFC value, the process is alive and reports no unrecovered panic; non-trivial = history with at least one non-well-formed request",
 	checkC19)
 
 var jsonValues = []string{"null", "true", "false", "0", "1", "-1", "1.5", "1e3", "1e400", "-1e400", "9007199254740992", "-9007199254740993", "9223372036854775807", "9223372036854775808", "-9223372036854775808", "-9223372036854775809",
@@ -459,6 +459,17 @@ var jsonValues = []string{"null", "true", "false", "0", "1", "-1", "1.5", "1e3",
 
 var hostilePaths = []string{"/nope", "/totp", "/totp/generate/x", "/totp/generat", "/ocra", "/otp", "/TOTP/GENERATE", "/totp/generate/", "//totp/generate", "/totp%2Fgenerate", "/totp/generate%00", "/./totp/generate", "/totp/../totp/generate",
 	"/docs", "/docs/", "/docs/index.html", "/docs/doc.json", "/docs/nope", "/?x=1", "/otp/secret?algorithm=SHA999", "/otp/secret?algorithm=" + strings.Repeat("A", 3000), "/" + strings.Repeat("a", 4000), "/favicon.ico", "*"}
+
+// drawJSONNumber draws a syntactically valid JSON number from the whole grammar: sign, integer part (0 or digits
+// without a leading zero, up to hundreds of digits), optional fraction, optional exponent of any size. A decoder that
+// scales a mantissa by its exponent step by step does work proportional to the exponent unless the value cuts it short.
+func drawJSONNumber(t *rapid.T) string {
+	s := rapid.SampledFrom([]string{"", "", "-"}).Draw(t, "numSign")
+	s += rapid.SampledFrom([]string{"0", "0", "1", "5", "42", "18446744073709551615", "18446744073709551616", "123456789012345678901234567890", strings.Repeat("9", 400), "1" + strings.Repeat("0", 1000)}).Draw(t, "numInt")
+	s += rapid.SampledFrom([]string{"", "", ".0", ".5", ".000", "." + strings.Repeat("0", 400) + "1", ".999999999999999999999"}).Draw(t, "numFrac")
+	s += rapid.SampledFrom([]string{"", "e0", "E0", "e1", "e+19", "e-19", "e20", "e308", "e-400", "e4000", "e2147483647", "e-2147483648", "e4294967296", "e9223372036854775807", "e-9223372036854775807", "e99999999999999999999", "E+000000000000000000001"}).Draw(t, "numExp")
+	return s
+}
 
 func drawHostile(t *rapid.T) hostileReq {
 	h := hostileReq{Method: rapid.SampledFrom([]string{"POST", "POST", "POST", "POST", "GET", "PUT", "DELETE", "HEAD", "PATCH", "OPTIONS"}).Draw(t, "method")}
@@ -488,7 +499,11 @@ func drawHostile(t *rapid.T) hostileReq {
 			h.Raw = rapid.SliceOfN(rapid.Byte(), 0, 60).Draw(t, "rawBytes")
 		}
 	case "type":
-		h.Value = rapid.SampledFrom(jsonValues).Draw(t, "value")
+		if rapid.IntRange(0, 3).Draw(t, "valueKind") == 0 {
+			h.Value = drawJSONNumber(t)
+		} else {
+			h.Value = rapid.SampledFrom(jsonValues).Draw(t, "value")
+		}
 	case "extreme": // a numeric field at an extreme but representable value, on its own endpoint
 		h.Mutation = "type"
 		h.Ep = rapid.SampledFrom([]string{"totp-val", "totp-val", "hotp-val", "totp-gen", "hotp-gen", "url"}).Draw(t, "numEp")
@@ -657,4 +672,103 @@ func TestC19_BigStrings(t *testing.T) {
 		}
 	}
 	c19Big.rec().Exhaustive()
+}
+
+// ---------------------------------------------------------------------------
+// Number forms, enumerated: every numeric field of every POST endpoint x the spellings JSON allows for a number.
+
+type c19NumCase struct {
+	Ep    string `json:"ep"`
+	Field string `json:"field"`
+	Text  string `json:"text"` // raw JSON put in place of the field's value
+}
+
+func numberForms() []string {
+	var out []string
+	for _, m := range []string{"0", "-0", "0.0", "0.000", "1", "5", "1.5", "0.5", "30", "18446744073709551615", "18446744073709551616", "-1", strings.Repeat("9", 400), "1" + strings.Repeat("0", 1000), "0." + strings.Repeat("0", 400) + "1"} {
+		for _, e := range []string{"", "e0", "e1", "E+2", "e-1", "e19", "e20", "e-20", "e308", "e-400", "e4000", "e2147483647", "e-2147483648", "e4294967296", "e9223372036854775807", "e-9223372036854775807", "e99999999999999999999"} {
+			out = append(out, m+e)
+		}
+	}
+	return out
+}
+
+func checkC19Num(c c19NumCase) verdict {
+	sv := server()
+	base := baseBody(c.Ep)
+	m := map[string]json.RawMessage{}
+	for k, v := range base {
+		b, _ := json.Marshal(v)
+		m[k] = b
+	}
+	m[c.Field] = json.RawMessage(c.Text)
+	var sb bytes.Buffer
+	sb.WriteByte('{')
+	for i, k := range sortedKeys(m) {
+		if i > 0 {
+			sb.WriteByte(',')
+		}
+		kb, _ := json.Marshal(k)
+		sb.Write(kb)
+		sb.WriteByte(':')
+		sb.Write(m[k])
+	}
+	sb.WriteByte('}')
+	body := sb.Bytes()
+	path := postEndpoints[c.Ep]
+	labels := []string{"ep=" + c.Ep, "field=" + c.Field}
+	t0 := time.Now()
+	status, rb, err := rawHTTP(sv.addr, "POST", path, body, 5*time.Second)
+	d := time.Since(t0)
+	if err != nil || d > 3*time.Second {
+		t1 := time.Now()
+		_, _, err2 := rawHTTP(sv.addr, "POST", path, body, 15*time.Second)
+		d2 := time.Since(t1)
+		if err2 != nil || d2 > 3*time.Second {
+			hang("C19", "number-forms", c, recorders["C19/number-forms"], fmt.Sprintf("POST %s with %s=%s: first attempt %v (%v), alone again %v (%v): the normal cost is ~100 us, so the work grows with the number as written (or the request is never answered)", path, c.Field, trunc(c.Text, 60), d.Round(time.Millisecond), err, d2.Round(time.Millisecond), err2))
+		}
+		labels = append(labels, "slow-once")
+	}
+	if status < 100 || status > 599 {
+		return bad(true, labels, "POST %s with %s=%s: status %d", path, c.Field, trunc(c.Text, 60), status)
+	}
+	if status < 400 && !successPayload(c.Ep, rb) {
+		return bad(true, labels, "POST %s with %s=%s answered %d %s: the status claims success but the answer is not the endpoint's result", path, c.Field, trunc(c.Text, 60), status, trunc(string(rb), 120))
+	}
+	labels = append(labels, fmt.Sprintf("status=%dxx", status/100))
+	if st, pb, perr := rawHTTP(sv.addr, "POST", "/hotp/generate", []byte(`{"secret":"GEZDGNBVGY3TQOJQGEZDGNBVGY3TQOJQ","counter":1,"digits":"6","algorithm":"SHA1"}`), 5*time.Second); perr != nil || st != 200 || !strings.Contains(string(pb), `"287082"`) {
+		return bad(true, labels, "probe after the request: status %d body %s err %v (want 200 with the RFC 4226 value 287082)", st, trunc(string(pb), 200), perr)
+	}
+	if !sv.alive() {
+		return bad(true, labels, "the server process died: %s", tailStr(sv.stderr.String(), 800))
+	}
+	if sv.stderr.alarm() {
+		return bad(true, labels, "the server reports an unrecovered panic, a fatal error or a data race: %s", trunc(sv.stderr.String(), 1500))
+	}
+	return ok(true, labels...)
+}
+
+var c19Num = newPart("C19", "number-forms",
+	"complete product: every numeric field (counter, timestamp, period, skew) of every POST endpoint x 255 spellings of a JSON number (15 mantissas incl. 0, -0, 0.000, 2^64, 400 nines, 1 followed by 1000 zeros, a 400-zero fraction x 17 exponents from none to e+-2^63 and e99999999999999999999); invariant: a complete HTTP response within 3 s (one lone re-measurement; normal cost ~100 us), a status below 400 only together with the endpoint's actual result, the RFC probe afterwards answered correctly, no unrecovered panic; every case distinct and non-trivial",
+	checkC19Num)
+
+func TestC19_NumberForms(t *testing.T) {
+	defer c19Num.rec().Flush()
+	forms := numberForms()
+	i := 0
+	for _, ep := range []string{"totp-gen", "totp-val", "hotp-gen", "hotp-val", "url"} {
+		for _, f := range sortedFieldNames(ep) {
+			if ft := fieldTypes[ep][f]; ft != "u" && ft != "i" {
+				continue
+			}
+			for _, x := range forms {
+				i++
+				if !ev.Mine(i) {
+					continue
+				}
+				c19Num.each(t, c19NumCase{Ep: ep, Field: f, Text: x})
+			}
+		}
+	}
+	c19Num.rec().Exhaustive()
 }
